@@ -265,14 +265,16 @@ func (g *generator) walkAnyOf(schema *openapi3.Schema) (ast.Type, error) {
 }
 
 func (g *generator) walkEnum(schema *openapi3.Schema) (ast.Type, error) {
+	if len(schema.Enum) == 0 {
+		return ast.Type{}, fmt.Errorf("enum with no values")
+	}
+
 	// Nullable enums? https://swagger.io/docs/specification/data-models/enums/
 	enums := make([]ast.EnumValue, 0, len(schema.Enum))
 	// `type` is optional: infer it from the values when it is not there
 	typeName := openapi3.TypeInteger
 	if schema.Type != nil && len(schema.Type.Slice()) != 0 {
 		typeName = schema.Type.Slice()[0]
-	} else if len(schema.Enum) == 0 {
-		return ast.Type{}, fmt.Errorf("enum with no values")
 	} else if _, isString := schema.Enum[0].(string); isString {
 		typeName = openapi3.TypeString
 	}
